@@ -50,8 +50,8 @@ func (th *Thread) spawn(fr *Frame, fv *FuncV, args []Value, call *ssa.CallCommon
 		defer p.threadExit(nt)
 		nt.invoke(&Frame{fn: fr.fn, info: fr.info, pos: fr.pos}, fv, args, call)
 	}()
-	// creating a goroutine is a visible operation
-	th.yield(nil)
+	// no scheduling point here: the new goroutine becomes eligible at the creator's next
+	// visible operation (every visible operation is preceded by a scheduling point)
 }
 
 // threadExit runs in the host goroutine of a finished (or crashed) engine thread.
